@@ -1,0 +1,74 @@
+// MIT License
+//
+// Copyright (c) 2022-2026 GoAkt Team
+//
+// Permission is hereby granted, free of charge, to any person obtaining a copy
+// of this software and associated documentation files (the "Software"), to deal
+// in the Software without restriction, including without limitation the rights
+// to use, copy, modify, merge, publish, distribute, sublicense, and/or sell
+// copies of the Software, and to permit persons to whom the Software is
+// furnished to do so, subject to the following conditions:
+//
+// The above copyright notice and this permission notice shall be included in all
+// copies or substantial portions of the Software.
+//
+// THE SOFTWARE IS PROVIDED "AS IS", WITHOUT WARRANTY OF ANY KIND, EXPRESS OR
+// IMPLIED, INCLUDING BUT NOT LIMITED TO THE WARRANTIES OF MERCHANTABILITY,
+// FITNESS FOR A PARTICULAR PURPOSE AND NONINFRINGEMENT. IN NO EVENT SHALL THE
+// AUTHORS OR COPYRIGHT HOLDERS BE LIABLE FOR ANY CLAIM, DAMAGES OR OTHER
+// LIABILITY, WHETHER IN AN ACTION OF CONTRACT, TORT OR OTHERWISE, ARISING FROM,
+// OUT OF OR IN CONNECTION WITH THE SOFTWARE OR THE USE OR OTHER DEALINGS IN THE
+// SOFTWARE.
+
+package net
+
+import (
+	"io"
+	"net"
+	"runtime"
+	"testing"
+
+	"github.com/stretchr/testify/require"
+)
+
+// A connection closed after a partial read of a large, highly compressible
+// stream leaves undecoded raw input inside the brotli reader. The next
+// connection wrapped by the same wrapper must still read exactly what its own
+// peer wrote.
+func TestBrotliConnWrapperPartialReadDoesNotLeakIntoNextConn(t *testing.T) {
+	// sync.Pool is per-P: one P makes any pooled-object reuse deterministic.
+	defer runtime.GOMAXPROCS(runtime.GOMAXPROCS(1))
+
+	local := NewBrotliConnWrapper()
+	big := make([]byte, 8<<20)
+	for i := range big {
+		big[i] = byte('A' + (i/100000)%26)
+	}
+	for round, msg := range [][]byte{big, []byte("WORLD")} {
+		ln, err := net.Listen("tcp", "127.0.0.1:0")
+		require.NoError(t, err)
+		c2, err := net.Dial("tcp", ln.Addr().String())
+		require.NoError(t, err)
+		c1, err := ln.Accept()
+		require.NoError(t, err)
+		require.NoError(t, ln.Close())
+
+		a, err := local.Wrap(c1)
+		require.NoError(t, err)
+		b, err := NewBrotliConnWrapper().Wrap(c2)
+		require.NoError(t, err)
+
+		_, err = b.Write(msg)
+		require.NoError(t, err)
+
+		want := msg[:5]
+		buf := make([]byte, len(want))
+		_, err = io.ReadFull(a, buf)
+		require.NoError(t, err, "round %d", round)
+		require.Equal(t, string(want), string(buf), "round %d", round)
+
+		// a closes with most of the stream unread; the peer's Close may see a reset
+		_ = a.Close()
+		_ = b.Close()
+	}
+}
